@@ -250,7 +250,7 @@ struct Options
   uint64_t max_paths = 1000000, max_steps = 5000000, max_violations = 50, samples = 8;
   double timeout_s = 1e9;
   unsigned query_timeout_ms = 30000;
-  unsigned max_stack = 400;
+  unsigned max_stack = 3000;
   std::string out, inputs_file;
   bool concrete_inputs = false;
   std::vector<uint64_t> concrete;
